@@ -382,8 +382,20 @@ pub fn load_known() -> Vec<Known> {
 // ---------------------------------------------------------------------------------------
 // worker entry
 
+/// cap the address space of a worker so that a runaway allocation (e.g. a search that never
+/// terminates while being observed) ends in an abort that the driver reports with the last
+/// recorded case, instead of exhausting the machine
+fn limit_memory() {
+    let gb: u64 = std::env::var("VERIF_WORKER_MEM_GB").ok().and_then(|s| s.parse().ok()).unwrap_or(6);
+    let lim = libc::rlimit { rlim_cur: gb << 30, rlim_max: gb << 30 };
+    unsafe {
+        libc::setrlimit(libc::RLIMIT_AS, &lim);
+    }
+}
+
 pub fn worker_main(def: &CheckDef, tier: Tier, seed: u64, idx: u64, n: u64, dir: &Path) -> i32 {
     recording_panics();
+    limit_memory();
     let ctx = WorkerCtx { id: def.id.to_string(), tier, seed, idx, n, dir: dir.to_path_buf(), stats: RefCell::new(Stats::new()), current: RefCell::new(None) };
     let t0 = Instant::now();
     let res = (def.worker)(&ctx);
@@ -552,7 +564,7 @@ pub fn driver_main(def: &CheckDef, tier: Tier, seed: u64) -> i32 {
         }
     }
     let budget = Duration::from_secs(
-        std::env::var("VERIF_WATCHDOG_S").ok().and_then(|s| s.parse().ok()).unwrap_or(tier.pick(1500, 7200)),
+        std::env::var("VERIF_WATCHDOG_S").ok().and_then(|s| s.parse().ok()).unwrap_or(tier.pick(900, 7200)),
     );
     let mut statuses = vec![];
     let mut timed_out = false;
